@@ -327,6 +327,6 @@ mod tests {
 }
 
 #[cfg(kani)]
-mod verif {
+pub(crate) mod verif {
     include!(concat!(env!("PROFIRUST_VERIF_HARNESS"), "/fdl_live_list.rs"));
 }
